@@ -125,6 +125,19 @@ def check(ctx, pid="C10"):
     return viols, cov, ["histories longer than the bounds are not explored"]
 
 
+def with_client(base):
+    """A property decided on the trace box AND on the Client histories (observers and action
+    shapes must be right along ANY call sequence, not only the canonical one)."""
+    def run(ctx):
+        va, cova, asm = base(ctx)
+        vb, covb, _ = check(ctx, pid=ctx.pid)
+        cova["traces_validated_against_impl"] += covb["traces_validated_against_impl"]
+        cova["client_histories"] = {k: covb[k] for k in ("histories_exhaustive", "histories_simulated",
+                                                         "depth", "profiles", "alphabet")}
+        return va + vb, cova, asm
+    return run
+
+
 def check_c09(ctx):
     """C09 = (a) the trace box + (b) the Client histories, both filtered to C09 clauses."""
     from . import eprops
